@@ -7,6 +7,7 @@
    [cp_eq p] = constant-product pool (use_oracle = false) with equal positive weights and non-negative reserves. *)
 From Coq Require Import ZArith List Bool.
 From Elys Require Import Base.Res Base.Zdec Models.AmmSwap Proofs.AmmSwapProofs Proofs.AmmSwapProofs2.
+From Elys Require Import Proofs.PowBounds Proofs.PowSeries.
 Import ListNotations.
 Open Scope Z_scope.
 
@@ -152,6 +153,116 @@ Theorem C03_weighted_in_partial : forall p o fee inn slip,
 Proof. exact weighted_in_partial. Qed.
 Print Assumptions C03_weighted_in_partial.
 
+(* ---------- weighted pools, what IS proved about Pow (Proofs/PowBounds.v, Proofs/PowSeries.v) ---------- *)
+
+(* LegacyDec.Power (the integer path of Pow: square-and-multiply, one rounding Mul per step), n >= 1, base y >= 0,
+   M any number >= max(y, 10^18):   2*10^18*y^n <= 2*pw*10^(18n) + (n-1)*M^n,  i.e.
+     y <= 1:  pw >= y^n/10^(18(n-1)) - (n-1)/2        (at most (n-1)/2 units of 10^-18 below the exact power)
+     y >= 1:  pw >= y^n*(1 - (n-1)/(2*10^18))/10^(18(n-1)). *)
+Theorem C03_pow_integer_lower_bound : forall y M n pw,
+  0 <= y <= M -> PREC <= M -> 1 <= n -> pow y (n * PREC) = Ok pw ->
+  2 * PREC * y ^ n <= 2 * pw * PREC ^ n + (n - 1) * M ^ n /\ 0 <= pw.
+Proof. exact pow_integer_lb. Qed.
+Print Assumptions C03_pow_integer_lower_bound.
+
+(* FULL statement for constant-product pools whose weight ratio w_in/w_out is an integer n >= 1 (the fixture's 1:3
+   pool swapped uelys -> uusdc; 1:2, 1:4, ... pools in that direction), exact-in, every amount / reserve / fee in [0,1]:
+   with N = B_in*10^18 + a*(10^18 - fee) and y = the rounded base Quo(B_in, B_in + a') the code computes,
+     (a) out <= B_out*(1 - (y/10^18)^n) + B_out*(n-1)/(2*10^18),
+     (b) out <= B_out*(1 - (B_in*10^18/N)^n) + B_out*((2n-1)/2 + n*10^-18)/10^18     (exact rational power),
+   both cleared of divisions; 0 < out <= B_out. For n = 1 (b) is C03_cp_equal_weight_out_bounds. The slack is REAL
+   and exceeds one base unit of the output token once B_out*(2n-1) > 2*10^18 (C03_weighted_integer_one_unit_refuted). *)
+Theorem C03_weighted_out_integer_ratio : forall p a fee out slip n,
+  use_oracle p = false -> 0 < w_out p -> w_in p = n * w_out p -> 1 <= n ->
+  0 <= rin p -> 0 <= rout p -> 0 <= a -> 0 <= fee <= PREC ->
+  calc_out p a fee = Ok (out, slip) ->
+  let N := rin p * PREC + a * (PREC - fee) in
+  let y := dquo (rin p * PREC) N in
+  (0 < N /\ 0 < y <= PREC /\ 0 < out <= rout p /\
+   2 * out * PREC ^ n <= rout p * (2 * (PREC ^ n - y ^ n) + (n - 1) * PREC ^ (n - 1))) /\
+  2 * out * (PREC * PREC) * N ^ n <=
+    2 * rout p * (PREC * PREC) * (N ^ n - (rin p * PREC) ^ n) + rout p * N ^ n * ((2 * n - 1) * PREC + 2 * n).
+Proof. exact int_ratio_out_full. Qed.
+Print Assumptions C03_weighted_out_integer_ratio.
+
+(* The stated allowance - ONE base unit above the floor of the exact constant-weighted-product amount - holds while
+   B_out*((2n-1)*10^18 + 2n) <= 2*10^36  (n = 2: B_out <= 6.6*10^17, n = 3: <= 4*10^17 - 1, n = 4: <= 2.8*10^17). *)
+Theorem C03_weighted_out_integer_ratio_one_unit : forall p a fee out slip n,
+  use_oracle p = false -> 0 < w_out p -> w_in p = n * w_out p -> 1 <= n ->
+  0 <= rin p -> 0 <= rout p -> 0 <= a -> 0 <= fee <= PREC ->
+  calc_out p a fee = Ok (out, slip) ->
+  rout p * ((2 * n - 1) * PREC + 2 * n) <= 2 * (PREC * PREC) ->
+  let N := rin p * PREC + a * (PREC - fee) in
+  out <= (rout p * (N ^ n - (rin p * PREC) ^ n)) / N ^ n + 1.
+Proof. exact int_ratio_out_one_unit. Qed.
+Print Assumptions C03_weighted_out_integer_ratio_one_unit.
+
+(* ... and is exceeded above (same cause as C03_one_unit_refuted; part of the same known finding): reserves
+   4*10^23 : 3*10^23, weights 3:1, fee 0, 10^18 in pays floor(exact) + 225176 (proved slack: 750000). *)
+Theorem C03_weighted_integer_one_unit_refuted :
+  let p := cp13 400000000000000000000000 300000000000000000000000 3 1 in
+  let N := rin p * PREC + 1000000000000000000 * PREC in
+  exists out slip, calc_out p 1000000000000000000 0 = Ok (out, slip) /\
+    out = (rout p * (N ^ 3 - (rin p * PREC) ^ 3)) / N ^ 3 + 225176.
+Proof. exact int_ratio_one_unit_refuted. Qed.
+Print Assumptions C03_weighted_integer_one_unit_refuted.
+
+(* Exact-out with an integer ratio w_out/w_in = n >= 1 (the 1:3 pool bought in the other direction): with
+   R = B_out - o and y = the rounded base Quo(B_out, R) >= 1 the code computes,
+     in >= B_in*((y/10^18)^n*(1 - (n-1)/(2*10^18)) - 1)    (the fee only raises the charge),
+   and y > B_out/R*10^18 - (1/2 + 10^-18) (last conjunct). *)
+Theorem C03_weighted_in_integer_ratio : forall p o fee inn slip n,
+  use_oracle p = false -> 0 < w_in p -> w_out p = n * w_in p -> 1 <= n ->
+  0 <= rin p -> 0 <= o -> 0 <= fee < PREC ->
+  calc_in p o fee = Ok (inn, slip) ->
+  let R := rout p - o in
+  let y := dquo (rout p * PREC) (R * PREC) in
+  0 < R /\ PREC <= y /\ 0 < inn /\
+  rin p * ((2 * PREC - (n - 1)) * y ^ n - 2 * PREC * PREC ^ n) <= 2 * inn * PREC * PREC ^ n /\
+  rout p * (PREC * PREC) < y * PREC * R + (HALF + 1) * R.
+Proof. exact int_ratio_in_base. Qed.
+Print Assumptions C03_weighted_in_integer_ratio.
+
+(* Range of Pow for EVERY exponent e >= 0 (what makes the _partial theorems usable with lb = pw resp. lb = 0):
+   - base in [1,2) (exact-out buying less than half of the out-reserve), or any base >= 1 when the fractional part of
+     the exponent is 0 or 1/2: Pow >= 1, so the charge B_in*(pw - 1) is non-negative and C03_weighted_in_partial
+     applies with lb = pw;
+   - base in [0.5,1] with a fractional part other than 1/2, or any base in (0,1] with an integer exponent: 0 <= Pow <= 1.
+   (ApproxSqrt: Newton iterates stay in [1,d]; Maclaurin series: alternating with non-increasing terms for a base >= 1;
+   for a base in [0.5,1) all terms are subtracted and decay geometrically - ratio <= 1/4 then <= 0.51.) NOT covered: the ln/exp method (base outside [0.5,2), fractional exponent). *)
+Theorem C03_pow_ge_one : forall y e pw,
+  PREC <= y -> 0 <= e -> (y < TWO \/ Z.rem e PREC = 0 \/ Z.rem e PREC = HALF) ->
+  pow y e = Ok pw -> PREC <= pw.
+Proof. exact pow_ge_one. Qed.
+Print Assumptions C03_pow_ge_one.
+
+Theorem C03_pow_le_one : forall y e pw,
+  0 < y <= PREC -> 0 <= e -> (Z.rem e PREC = 0 \/ (HALF <= y /\ Z.rem e PREC <> HALF)) ->
+  pow y e = Ok pw -> 0 <= pw <= PREC.
+Proof. exact pow_range_le_one. Qed.
+Print Assumptions C03_pow_le_one.
+
+(* hence, for ALL weights: when the rounded base y = Quo(B_in, B_in + a') is at least 1/2 (the amount in after fee does
+   not exceed the in-reserve) and the fractional part of w_in/w_out is not 1/2 (or the ratio is an integer, any y),
+   the payout is positive and within the out-reserve *)
+Theorem C03_weighted_out_within_reserve : forall p a fee out slip,
+  use_oracle p = false -> 0 <= rin p -> 0 <= rout p -> 0 <= a -> 0 <= fee <= PREC ->
+  calc_out p a fee = Ok (out, slip) ->
+  let y := dquo (rin p * PREC) (rin p * PREC + a * (PREC - fee)) in
+  let r := dquo (w_in p * PREC) (w_out p * PREC) in
+  0 <= r -> (Z.rem r PREC = 0 \/ (HALF <= y /\ Z.rem r PREC <> HALF)) ->
+  0 < out <= rout p.
+Proof. exact weighted_out_within_reserve. Qed.
+Print Assumptions C03_weighted_out_within_reserve.
+
+(* exponent in [0,1] (w_in <= w_out): 1 <= Pow(y,e) <= y, so an exact-out trade on such a pool charges at most
+   B_in*(y - 1) before fee and rounding - never more than the equal-weight pool would *)
+Theorem C03_pow_between_one_and_base : forall y e pw,
+  PREC <= y -> 0 <= e <= PREC -> (y < TWO \/ e = 0 \/ e = HALF \/ e = PREC) ->
+  pow y e = Ok pw -> PREC <= pw <= y.
+Proof. exact pow_le_base. Qed.
+Print Assumptions C03_pow_between_one_and_base.
+
 (* Oracle pools, exact-in (the whole of SwapOutAmtGivenIn: resize by the external-liquidity ratio, balancer slippage
    of the resized trade, value formula), for all prices, ratios, reserves, weight-breaking fee in [0,1] as resolved
    from the implementation, swap fee >= 0: value out <= value in + half of 10^-18 out-token. *)
@@ -200,3 +311,15 @@ Example C03_nonvacuous :
   cp_eq (cp11 30000000000 10000000000) /\
   (10000000000 * (1000000 * (PREC - 3000000000000000))) / (30000000000 * PREC + 1000000 * (PREC - 3000000000000000)) = 332322.
 Proof. exact nonvacuous_example. Qed.
+
+(* non-vacuity of the integer-ratio theorems: the fixture's 1:3 pool (uusdc 30e9 weight 1 : uelys 10e9 weight 3), 1e6
+   uelys in at 0.3% pays 8971211 = floor(exact); hypotheses of the one-unit corollary hold; the opposite exact-out
+   trade (1e6 uelys bought with uusdc) succeeds as well *)
+Example C03_integer_ratio_nonvacuous :
+  let p := cp13 10000000000 30000000000 3 1 in
+  let N := rin p * PREC + 1000000 * (PREC - 3000000000000000) in
+  exists slip, calc_out p 1000000 3000000000000000 = Ok (8971211, slip) /\
+  (rout p * (N ^ 3 - (rin p * PREC) ^ 3)) / N ^ 3 = 8971211 /\
+  rout p * ((2 * 3 - 1) * PREC + 2 * 3) <= 2 * (PREC * PREC) /\
+  exists slip2, calc_in (cp13 30000000000 10000000000 1 3) 1000000 3000000000000000 = Ok (9028887, slip2).
+Proof. exact int_ratio_nonvacuous. Qed.
